@@ -39,6 +39,9 @@ vars == <<bel, ln, tags, mon>>
 
 SetOf(s) == {s[i] : i \in 1..Len(s)}
 
+\* call by value: v is evaluated once (TLC re-evaluates LET definitions at every use inside an action)
+Let1(v, F(_)) == CHOOSE x \in {F(y) : y \in {v}} : TRUE
+
 -----------------------------------------------------------------------------
 (* closure under the hidden steps                                          *)
 
@@ -70,7 +73,6 @@ ObsMem(m) == {[t |-> x.t, port |-> 0, slots |-> x.slots, start |-> x.start, expi
 
 DbFields == {"towers", "regs", "rcpts", "pend", "inv", "bodies", "proofs"}
 
-MemMatch(s, e) == IF ~e.memok THEN (~s.alive \/ s.poisoned) ELSE (s.alive /\ ~s.poisoned /\ s.st.mem = ObsMem(e.mem))
 
 \* without the statuses
 Plain(mem) == {[t |-> x.t, slots |-> x.slots, start |-> x.start, expiry |-> x.expiry, pending |-> x.pending,
@@ -124,26 +126,30 @@ ReqTags(C, e) ==
          THEN T("C13", "NoFlood.request_before_backoff")
     ELSE T("C13", "conf.unexpected_request")
 
-ObsStep(C, e, HC(_)) ==
-    LET odb == ObsDb(e.db)
-        B1 == {s \in C : s.st.db = odb}
-        C2 == HC(B1)
-        B2 == {s \in C2 : MemMatch(s, e)}
-    IN IF B1 = {}
-       THEN \* which tables disagree with every compatible state?
-            LET bad == {f \in DbFields : \A s \in C : s.st.db[f] # odb[f]}
-                tg == IF bad = {} THEN T("C05", "conf.db") ELSE UNION {T(IF f \in {"proofs", "regs", "towers"} THEN "C14" ELSE "C05", "conf.db." \o f) : f \in bad}
-                F == {[s EXCEPT !.st.db = odb, !.st.mem = IF ~e.memok THEN @ ELSE ObsMem(e.mem)] : s \in C}
-            IN [bel |-> F, tags |-> tg]
-       ELSE IF B2 = {}
-       THEN LET tg == IF ~e.memok THEN T("C14", "Survives.listtowers_not_answered")
-                      ELSE IF \A s \in C2 : ~(s.alive /\ ~s.poisoned) THEN T("C14", "conf.mem.answered_unexpectedly")
-                      ELSE IF \E s \in C2 : Plain(s.st.mem) = Plain(ObsMem(e.mem)) THEN T("C13", "conf.mem.status")
-                      ELSE T("C05", "conf.mem")
-                F == {[s EXCEPT !.st.mem = IF ~e.memok THEN @ ELSE ObsMem(e.mem),
-                                !.poisoned = (~e.memok /\ s.alive)] : s \in C2}
-            IN [bel |-> F, tags |-> tg]
-       ELSE [bel |-> B2, tags |-> {}]
+ObsFail1(C, e, odb) ==
+    \* which tables disagree with every compatible state?
+    LET bad == {f \in DbFields : \A s \in C : s.st.db[f] # odb[f]}
+        tg == IF bad = {} THEN T("C05", "conf.db")
+              ELSE UNION {T(IF f \in {"proofs", "regs", "towers"} THEN "C14" ELSE "C05", "conf.db." \o f) : f \in bad}
+        F == {[s EXCEPT !.st.db = odb, !.st.mem = IF ~e.memok THEN @ ELSE ObsMem(e.mem)] : s \in C}
+    IN [bel |-> F, tags |-> tg]
+
+ObsFail2(C2, e, omem) ==
+    LET tg == IF ~e.memok THEN T("C14", "Survives.listtowers_not_answered")
+              ELSE IF \A s \in C2 : ~(s.alive /\ ~s.poisoned) THEN T("C14", "conf.mem.answered_unexpectedly")
+              ELSE IF \E s \in C2 : Plain(s.st.mem) = Plain(omem) THEN T("C13", "conf.mem.status")
+              ELSE T("C05", "conf.mem")
+        F == {[s EXCEPT !.st.mem = IF ~e.memok THEN @ ELSE omem, !.poisoned = (~e.memok /\ s.alive)] : s \in C2}
+    IN [bel |-> F, tags |-> tg]
+
+ObsStep(C, e, tm) ==
+    Let1(ObsDb(e.db), LAMBDA odb :
+    Let1({s \in C : s.st.db = odb}, LAMBDA B1 :
+      IF B1 = {} THEN ObsFail1(C, e, odb)
+      ELSE Let1(Close({}, B1, tm), LAMBDA C2 :
+           Let1(ObsMem(e.mem), LAMBDA omem :
+           Let1({s \in C2 : IF ~e.memok THEN (~s.alive \/ s.poisoned) ELSE (s.alive /\ ~s.poisoned /\ s.st.mem = omem)}, LAMBDA B2 :
+             IF B2 = {} THEN ObsFail2(C2, e, omem) ELSE [bel |-> B2, tags |-> {}])))))
 
 \* timing obligations evaluated on an observation (m = monitor state after the bookkeeping of this event)
 MemOf(e, t) == {x \in SetOf(e.mem) : x.t = t}
@@ -167,9 +173,7 @@ ObsMon(e, m) ==
                                         THEN e.ts ELSE @[t]],
               !.sawUnr = [t \in Towers |-> @[t] \/ \E x \in MemOf(e, t) : x.status = "unreachable"]]
 
-R(e) ==
-    LET C == Close({}, bel, TmOf(mon.cfg, mon.lastTs, e.ts))
-        HC(S) == Close({}, S, TmOf(mon.cfg, e.ts, e.ts)) IN
+R(e, C) ==
     CASE e.ev = "start" -> Res({}, {}, [Mon0 EXCEPT !.name = e.name])
       [] e.ev = "boot" ->
            Res(IF e.n = 1 THEN {InitClient} ELSE {Restart(s) : s \in bel}, {},
@@ -180,41 +184,39 @@ R(e) ==
               [] OTHER -> Res(C, {}, Touch(mon, {e.t} \cap Towers, e.ts)))
       [] e.ev = "ret" ->
            (CASE e.m = "notify" ->
-                   LET B == UNION {{NotifyRet(s, n) : n \in {x \in s.nots : x.id = e.id /\ NotifyCanRet(s, x)}} : s \in C}
-                   IN IF B # {} THEN Res(B, {}, Touch(mon, Towers, e.ts))
-                      ELSE Res({DropTask(s, e.id) : s \in C}, T("C05", "conf.hook_answered_early"), mon)
+                   Let1(UNION {{NotifyRet(s, n) : n \in {x \in s.nots : x.id = e.id /\ NotifyCanRet(s, x)}} : s \in C}, LAMBDA B :
+                      IF B # {} THEN Res(B, {}, Touch(mon, Towers, e.ts))
+                      ELSE Res({DropTask(s, e.id) : s \in C}, T("C05", "conf.hook_answered_early"), mon))
               [] e.m = "registertower" ->
-                   LET want == IF e.res = "ok" THEN "ok" ELSE "err"
-                       B == UNION {{RegRet(s, g) : g \in {x \in s.regs : x.id = e.id /\ RegCanRet(s, x, want)}} : s \in C}
-                   IN IF B # {} THEN Res(B, {}, Touch(mon, {e.t}, e.ts))
-                      ELSE Res({DropTask(s, e.id) : s \in C}, T("C14", "RegRecorded.answer_" \o want), mon)
+                   LET want == IF e.res = "ok" THEN "ok" ELSE "err" IN
+                   Let1(UNION {{RegRet(s, g) : g \in {x \in s.regs : x.id = e.id /\ RegCanRet(s, x, want)}} : s \in C}, LAMBDA B :
+                      IF B # {} THEN Res(B, {}, Touch(mon, {e.t}, e.ts))
+                      ELSE Res({DropTask(s, e.id) : s \in C}, T("C14", "RegRecorded.answer_" \o want), mon))
               [] e.m = "retrytower" ->
-                   LET P == UNION {ManualRetry(s, e.t) : s \in C}
-                       B == {p[1] : p \in {q \in P : q[2] = e.res}}
-                   IN IF B # {} THEN Res(B, {}, Touch(mon, {e.t}, e.ts))
-                      ELSE Res(C, T("C13", "ManualRetryGate.answer_" \o e.res), mon)
+                   Let1({p[1] : p \in {q \in UNION {ManualRetry(s, e.t) : s \in C} : q[2] = e.res}}, LAMBDA B :
+                      IF B # {} THEN Res(B, {}, Touch(mon, {e.t}, e.ts))
+                      ELSE Res(C, T("C13", "ManualRetryGate.answer_" \o e.res), mon))
               [] e.m = "abandontower" ->
-                   LET P == UNION {Abandon(s, e.t) : s \in C}
-                       B == {p[1] : p \in {q \in P : q[2] = e.res}}
-                   IN IF B # {} THEN Res(B, {}, Touch(mon, {e.t}, e.ts))
-                      ELSE Res(C, T("C05", "conf.abandon_answer_" \o e.res), mon)
+                   Let1({p[1] : p \in {q \in UNION {Abandon(s, e.t) : s \in C} : q[2] = e.res}}, LAMBDA B :
+                      IF B # {} THEN Res(B, {}, Touch(mon, {e.t}, e.ts))
+                      ELSE Res(C, T("C05", "conf.abandon_answer_" \o e.res), mon))
               [] OTHER -> Res(C, {}, mon))
       [] e.ev = "noret" ->
            \* no answer: the task is gone (it aborted), or the process is
-           LET B == IF e.m \in {"notify", "registertower"}
+           Let1(    IF e.m \in {"notify", "registertower"}
                     THEN {s \in C : e.id \notin TaskIds(s)}
                          \* (the rig stopped waiting while a tower was still holding the task's request: no verdict)
                          \cup (IF e.why = "timeout"
                                THEN {s \in C : \E n \in s.nots : n.id = e.id /\ n.pc = "wait"}
                                     \cup {s \in C : \E g \in s.regs : g.id = e.id /\ g.pc = "wait"}
                                ELSE {})
-                    ELSE {s \in C : ~s.alive \/ s.poisoned}
-           IN IF B # {} THEN Res(B, {}, mon)
+                    ELSE {s \in C : ~s.alive \/ s.poisoned}, LAMBDA B :
+              IF B # {} THEN Res(B, {}, mon)
               ELSE Res({DropTask(s, e.id) : s \in C},
-                       T(IF e.m = "notify" THEN "C05" ELSE "C14", "Survives.no_answer_to_" \o e.m), mon)
+                       T(IF e.m = "notify" THEN "C05" ELSE "C14", "Survives.no_answer_to_" \o e.m), mon))
       [] e.ev = "req" ->
-           LET B == UNION {SendSet(s, e.t, e.ep, e.l, e.seq, e.ts) : s \in C}
-           IN IF B # {} THEN Res(B, {}, mon) ELSE Res(C, ReqTags(C, e), mon)
+           Let1(UNION {SendSet(s, e.t, e.ep, e.l, e.seq, e.ts) : s \in C}, LAMBDA B :
+              IF B # {} THEN Res(B, {}, mon) ELSE Res(C, ReqTags(C, e), mon))
       [] e.ev = "rep" ->
            LET good == e.cls = <<"accept">> /\ (e.ep = "add" \/ \A s \in C : RegAccepted(s.st, e.t, e.slots, e.expiry))
            IN Res(UNION {UNION {ReplySet(s, e.t, e.seq, RepOf(e, k)) : k \in SetOf(e.cls)} : s \in C}, {},
@@ -229,17 +231,17 @@ R(e) ==
       [] e.ev = "kill" -> Res({Kill(s) : s \in C}, {}, Touch(mon, Towers, e.ts))
       [] e.ev \in {"obs", "same"} ->
            \* "same": the state was read again and is what the last observation showed
-           LET eo == IF e.ev = "obs" THEN e ELSE [mon.lastObs EXCEPT !.ts = e.ts]
-               o == ObsStep(C, eo, HC)
-               m2 == [ObsMon(eo, mon) EXCEPT !.lastObs = [db |-> eo.db, mem |-> eo.mem, memok |-> eo.memok, ts |-> eo.ts]]
-               tt == TimingTags(eo, m2)
-           IN Res(o.bel, o.tags \cup tt,
+           Let1(IF e.ev = "obs" THEN e ELSE [mon.lastObs EXCEPT !.ts = e.ts], LAMBDA eo :
+           Let1(ObsStep(C, eo, TmOf(mon.cfg, e.ts, e.ts)), LAMBDA o :
+           Let1([ObsMon(eo, mon) EXCEPT !.lastObs = [db |-> eo.db, mem |-> eo.mem, memok |-> eo.memok, ts |-> eo.ts]], LAMBDA m2 :
+           Let1(TimingTags(eo, m2), LAMBDA tt :
+              Res(o.bel, o.tags \cup tt,
                   [m2 EXCEPT !.flagged = @ \cup {x[3] : x \in {y \in tt : y[3] = "Delivered.not_within_bound"}}
                                            \cup (IF \E y \in tt : y[3] = "Delivered.not_within_bound" THEN {"Delivered"} ELSE {})
-                                           \cup (IF \E y \in tt : y[3] = "EndsUnreachable.not_within_bound" THEN {"EndsUnreachable"} ELSE {})])
+                                           \cup (IF \E y \in tt : y[3] = "EndsUnreachable.not_within_bound" THEN {"EndsUnreachable"} ELSE {})])))))
       [] e.ev = "probe" ->
-           LET B == {s \in C : e.answered = (s.alive /\ ~s.poisoned)}
-           IN IF B # {} THEN Res(B, {}, mon) ELSE Res(C, T("C14", "Survives.probe_not_answered"), mon)
+           Let1({s \in C : e.answered = (s.alive /\ ~s.poisoned)}, LAMBDA B :
+              IF B # {} THEN Res(B, {}, mon) ELSE Res(C, T("C14", "Survives.probe_not_answered"), mon))
       [] e.ev = "abort" -> Res(bel, T("ABORT", e.site), mon)
       [] e.ev = "end" -> Res(bel, IF e.inconclusive # <<>> THEN T("INCONCLUSIVE", e.inconclusive[1]) ELSE {}, mon)
       [] OTHER -> Res(bel, {}, mon)
@@ -255,13 +257,16 @@ Holds(name, s) ==
       [] name = "OneLoop" -> OneLoop(s) [] name = "EndsUnreachable" -> EndsUnreachable(s)
       [] name = "BadSig" -> BadSig(s) [] name = "Misbehaving" -> Misbehaving(s) [] name = "Survives" -> Survives(s)
 
+NeedsClosure(e) == e.ev \notin {"start", "boot", "mode", "abort", "end", "waited", "note", "skipped", "other_req"}
+
 Step ==
-    LET r == R(Ev)
-        B == r.bel
-        newdev == IF B = {} THEN {} ELSE {d \in UNION {s.dev : s \in B} : \A s \in B : d \in s.dev} \ r.mon.devs
-        viol == IF B = {} THEN {}
-                ELSE {i \in 1..Len(Monitors) : Monitors[i][2] \notin r.mon.flagged /\ \A s \in B : ~Holds(Monitors[i][2], s)}
-    IN /\ bel' = B
+    \E C \in {IF NeedsClosure(Ev) THEN Close({}, bel, TmOf(mon.cfg, mon.lastTs, Ev.ts)) ELSE bel} :
+    \E r \in {R(Ev, C)} :
+    \E B \in {r.bel} :
+    \E newdev \in {IF B = {} THEN {} ELSE {d \in UNION {s.dev : s \in B} : \A s \in B : d \in s.dev} \ r.mon.devs} :
+    \E viol \in {IF B = {} THEN {}
+                 ELSE {i \in 1..Len(Monitors) : Monitors[i][2] \notin r.mon.flagged /\ \A s \in B : ~Holds(Monitors[i][2], s)}} :
+       /\ bel' = B
        /\ tags' = tags \cup r.tags
                    \cup UNION {T(PropOfDev(d), "dev:" \o d) : d \in newdev \ {"S16"}}
                    \cup UNION {T(Monitors[i][1], Monitors[i][2]) : i \in viol}
